@@ -96,6 +96,12 @@ class Merger(object):
         logger.debug("Saving %s %s %s.", name, arr.dtype, arr.shape)
         np.save(self.out_dir / name, arr)
 
+    def _load(self, name):
+        """Load the same array in every probe directory, keeping all its dimensions (a probe
+        with a single template, a single channel, or one column per template has axes of
+        length one that are not to be squeezed)."""
+        return [np.load(str(subdir / name)) for subdir in self.subdirs]
+
     def write_params(self):
         """Write a params.py for the merged dataset."""
         params_l = [read_python(subdir / 'params.py') for subdir in self.subdirs]
@@ -190,7 +196,7 @@ class Merger(object):
         """Write channel-dependent data, and register self.channel_offsets."""
         self.channel_offsets = []
         channel_probes = []
-        channel_maps_l = _load_multiple_files('channel_map.npy', self.subdirs)
+        channel_maps_l = [array.ravel() for array in self._load('channel_map.npy')]
         # TODO if needed: channel_shanks.npy
         offset = 0
         n_channels = 0
@@ -208,7 +214,7 @@ class Merger(object):
 
     def write_channel_positions(self):
         """Write the channel positions."""
-        channel_positions_l = _load_multiple_files('channel_positions.npy', self.subdirs)
+        channel_positions_l = self._load('channel_positions.npy')
         x_offset = 0.
         for array in channel_positions_l:
             array[:, 0] += x_offset
@@ -225,7 +231,7 @@ class Merger(object):
 
         path = self.out_dir / 'templates.npy'
 
-        templates_l = _load_multiple_files('templates.npy', self.subdirs)
+        templates_l = self._load('templates.npy')
 
         # Determine the templates array shape.
         n_templates = sum(tmp.shape[0] for tmp in templates_l)
@@ -259,7 +265,7 @@ class Merger(object):
         ]
 
         for fn in template_data:
-            arrays = _load_multiple_files(fn, self.subdirs)
+            arrays = self._load(fn)
             if fn == 'pc_feature_ind.npy':
                 # Channel indices: shift by the number of channels of the previous probes.
                 offsets = self.channel_offsets
